@@ -129,6 +129,8 @@ def case(spec, ctx):
                     ctx.fail("python-layout-differs", f"hashseed {hs} {var}: {r['py_layout']} vs {ref['py_layout']}", one)
                 if not (r["ekf_repeat_same"] and r["model_repeat_same"]):
                     ctx.fail("second-generation-differs", f"hashseed {hs} {var}", one)
+                if not (r.get("ekf_config_unchanged", True) and r.get("model_config_unchanged", True)):
+                    ctx.fail("generation-modified-callers-config", f"hashseed {hs} {var}: the cpp.Config object passed in was changed by the generation", one)
                 ctx.count()
         ctx.event("definitions")
         if len(raw_orders) >= 2:
